@@ -69,7 +69,26 @@ var NoopConfig = Config{
 type flagParser struct {
 	input string
 	cfg   Config
+	depth int // arrays and objects currently open
 }
+
+// maxNestingDepth limits how deep arrays and objects may be nested (the
+// limit encoding/json uses): the parser is recursive, and so is everything
+// that processes the value it returns, a value string must not be able to
+// exhaust the stack.
+const maxNestingDepth = 10000
+
+var errNestingTooDeep = fmt.Errorf("exceeded max nesting depth of %d", maxNestingDepth)
+
+func (p *flagParser) enter() error {
+	p.depth++
+	if p.depth > maxNestingDepth {
+		return errNestingTooDeep
+	}
+	return nil
+}
+
+func (p *flagParser) leave() { p.depth-- }
 
 // stopSet definitions for handling unquoted strings
 const (
@@ -112,7 +131,7 @@ func Value(content string) (interface{}, error) {
 // In addition, top-level values can be separated by ',' to build arrays
 // without having to use [].
 func ValueWithConfig(content string, cfg Config) (interface{}, error) {
-	p := &flagParser{strings.TrimSpace(content), cfg}
+	p := &flagParser{input: strings.TrimSpace(content), cfg: cfg}
 	if err := p.validateConfig(); err != nil {
 		return nil, err
 	}
@@ -204,6 +223,10 @@ func (p *flagParser) ignoreWhitespace() {
 }
 
 func (p *flagParser) parseArray() (interface{}, error) {
+	if err := p.enter(); err != nil {
+		return nil, err
+	}
+	defer p.leave()
 	p.input = p.input[1:]
 
 	var values []interface{}
@@ -251,6 +274,10 @@ loop:
 }
 
 func (p *flagParser) parseObj() (interface{}, error) {
+	if err := p.enter(); err != nil {
+		return nil, err
+	}
+	defer p.leave()
 	p.input = p.input[1:]
 
 	O := map[string]interface{}{}
